@@ -894,7 +894,7 @@ class Layout:
         t = r.choice(self.COMMENT_TEXT)
         if r.random() < 0.5:
             return "//" + t
-        return "注" + r.choice(["", "1", "23"]) + "：" + (t if not t[:1] in "“「" else " " + t)
+        return "注" + r.choice(["", "1", "23"]) + "：" + (" " + t if t[:1] and t[:1] in "“「" else t)
 
     def inline_comment(self, multiline=False):
         r = self.rng
